@@ -230,6 +230,8 @@ def extra(tier, seed):
     out.append(run_native('C11:bounded:catalogue-structure', 'c11_native.py', ['structure', tier, str(seed)],
                           bound='21 catalogue entries x sizes (1,2),(2,4),(3,10),(7,50)' + (',(13,200),(1,1000),(50,20)' if tier != 'quick' else '')
                                 + ' x seeded repetitions: shape, support, antithetic halves, 2u-1, quantile of the underlying scheme (1e-13), strata, distinct bases'))
+    out.append(run_native('C11:bounded:normal-draws-are-quantiles-of-their-scheme', 'c11_native.py', ['structure_quantile', tier, str(seed)],
+                          bound='the NORMAL_* catalogue entries on the sizes of catalogue-structure: draws equal the standard normal quantile of the underlying uniform scheme to 1e-13; NORMAL_MLHS strata'))
     out.append(run_native('C11:bounded:normal-quantile-grid', 'c11_native.py', ['quantile', tier, str(seed)],
                           bound=('u in {1e-300..1e-5 per decade, 41 points around exp(-25), ' + ('4001' if tier == 'quick' else '400001')
                                  + ' equispaced points of (0,1), branch boundaries, 1-1e-16..1-1e-5}: 4e-15 relative vs scipy.stats.norm.ppf, 1e-15 vs the PPND16 transcription')))
